@@ -300,6 +300,20 @@ pub fn run(args: &Args) {
 			}
 			specs[0].tiles.extend(extra);
 		}
+		// every fourth world: tiles on the two highest levels, so that min/max of 30..33 and 255 bite
+		let top = wi % 4 == 1;
+		if top {
+			let m31 = u32::MAX >> 1;
+			let m30 = u32::MAX >> 2;
+			if specs[0].kind == "mbtiles" {
+				specs[0].kind = "mem".to_string();
+			}
+			for k in [(31u8, 0u32, 0u32), (31, m31, m31), (31, m31 - 1, 5), (30, 0, 0), (30, m30, m30), (30, 7, m30 - 1)] {
+				next += 1;
+				specs[0].tiles.insert(k, next);
+			}
+			out.count("world_with_level_30_31_tiles");
+		}
 		let w = World::build(&rt, &scratch, &specs);
 		out.count("world");
 		if !w.usable() {
@@ -322,6 +336,22 @@ pub fn run(args: &Args) {
 				out.count("invalid_battery");
 				check_chain(&rt, &mut out, &w, &rpn, &coords[..coords.len().min(3)]);
 				run_in_world(&rt, &mut out, &mut id, &w, "C09", "P", &rpn, "");
+			}
+		}
+		if top && w.usable() {
+			for z in ["Z30:n", "Z31:n", "Z32:n", "Z33:n", "Z255:n", "Zn:29", "Zn:30", "Zn:31", "Zn:32", "Zn:255", "Z31:31", "Z32:255", "Z30:31"] {
+				let rpn = format!("L0,{z}");
+				out.count("top_level_zoom_bounds");
+				check_chain(&rt, &mut out, &w, &rpn, &coords);
+				run_in_world(&rt, &mut out, &mut id, &w, "C09", "P", &rpn, "");
+				run_in_world(&rt, &mut out, &mut id, &w, "C09", "G", &rpn, &coords_s);
+			}
+			for z in [30u8, 31] {
+				let present: Vec<(u32, u32)> = specs[0].tiles.keys().filter(|k| k.0 == z).map(|k| (k.1, k.2)).collect();
+				let boxes = gen_boxes(&mut rng, z, &present, 1, 10);
+				for zf in ["Z32:n", "Z31:n", "Zn:30"] {
+					run_in_world(&rt, &mut out, &mut id, &w, "C09", "S", &format!("L0,{zf}"), &boxes_arg(&boxes));
+				}
 			}
 		}
 		for pi in 0..args.n(5, 8) {
